@@ -162,8 +162,7 @@ class Ctx:
             if r is not None and r[1] is None and r[0] in self.repo.modules and r[0] != rel:
                 # an imported repo module: expose its folded constants as attributes
                 other = self.module_env(r[0], unroll)
-                attrs = tuple(sorted(((k, v) for k, v in other.items() if T.concrete(v)), key=lambda kv: kv[0]))
-                gv[name] = ('obj', ('g', name), attrs)
+                gv[name] = T.mk_obj(('g', name), {k: v for k, v in other.items() if T.concrete(v)})
         pe = self.pe(rel, unroll=unroll, global_values=gv, module_mode=True)
         body = [s for s in m.tree.body if not _is_main_guard(s) and not isinstance(s, (ast.Import, ast.ImportFrom))]
         env = {}
@@ -229,7 +228,7 @@ def bits_const(t):
     if t[0] == 'call' and t[1] in (('g', 'Bits'),) and len(t[2]) >= 1:
         try:
             v = T.to_py(t[2][0])
-            n = T.to_py(t[2][1]) if len(t[2]) > 1 else dict(t[3]).get('size')
+            n = T.to_py(t[2][1]) if len(t[2]) > 1 else T.kwargs_of(t).get('size')
             if n is not None and not isinstance(n, int):
                 n = T.to_py(n)
             return (v, n)
